@@ -78,9 +78,11 @@ def get_rsp(status):
 @cond(bounds='C-GET user: n = 0..3 incoming C-STORE requests (symbolic) with symbolic message ids, arriving alternately on '
              'contexts 3 / 5 (symbolic which first), pending C-GET responses interleaved before each of them (symbolic booleans), '
              'final C-GET response success / warning / failure (symbolic), handler status symbolic and optionally '
-             'raising EventHandlingError for one of the requests; n and the failing position per instance',
-      family=[dict(n=n, fail_at=f) for n in range(4) for f in range(-1, n)], timeout=300)
-def get_user(p0: bool, p1: bool, p2: bool, flip: bool, m0: int, m1: int, m2: int, fin: int, st: int) -> bool:
+             'raising EventHandlingError for one of the requests; n and the failing position per instance; provider thread '
+             'drains queued responses at once or after the iteration (symbolic schedule)',
+      family=[dict(n=n, fail_at=f) for n in range(4) for f in range(-1, n)], timeout=500)
+def get_user(p0: bool, p1: bool, p2: bool, flip: bool, m0: int, m1: int, m2: int, fin: int, st: int,
+             lazy: bool) -> bool:
     """
     pre: 0 <= m0 <= 65535 and 0 <= m1 <= 65535 and 0 <= m2 <= 65535 and 0 <= fin <= 2 and 0 <= st <= 65535
     post: _
@@ -99,7 +101,7 @@ def get_user(p0: bool, p1: bool, p2: bool, flip: bool, m0: int, m1: int, m2: int
     final = (0x0000, 0xB000, 0xA702)[fin]
     script.append((get_rsp(final), 1))
     script.append((store_rq(9, 9), 3))              # after the final response: must stay unread
-    asce = RecAssoc(ae, script=script)
+    asce = RecAssoc(ae, script=script, lazy=lazy)
     got = list(sopclass.qr_get_scu(asce, ctx_of(1, GET_SOP), IDENT, 77))
     sent = asce.sent()
     ok = len(asce.script) == 1 and len(sent) == 1 + n and sent[0].command_field == 0x0010 and sent[0].message_id == 77
@@ -153,19 +155,22 @@ class MoveAE(object):
 
 @cond(bounds='C-MOVE provider: total = 0..3 sub-operations (symbolic), outcome of each success / warning B000 / failure '
              'A700 (symbolic), message id and context id symbolic, destination known / unknown when nothing is to be '
-             'moved (symbolic)', timeout=300)
-def move_provider(total: int, o0: int, o1: int, o2: int, mid: int, h: int, known: bool) -> bool:
+             'moved (symbolic); schedule (symbolic): the provider thread takes every queued response at once, or only '
+             'after the service callable has returned (responses must say what they said when they were sent); one '
+             'instance per total', family={'total': [0, 1, 2, 3]}, timeout=400)
+def move_provider(total: int, o0: int, o1: int, o2: int, mid: int, h: int, known: bool, lazy: bool) -> bool:
     """
-    pre: 0 <= total <= 3 and 0 <= o0 <= 2 and 0 <= o1 <= 2 and 0 <= o2 <= 2 and 0 <= mid <= 65535 and 0 <= h <= 127
+    pre: total == fam('total') and 0 <= o0 <= 2 and 0 <= o1 <= 2 and 0 <= o2 <= 2 and 0 <= mid <= 65535 and 0 <= h <= 127
+    pre: (total > 2 or o2 == 0) and (total > 1 or o1 == 0) and (total > 0 or o0 == 0)
     post: _
     """
-    total = pick(total, 0, 3)
+    total = fam('total')
     cid = 2 * h + 1
     codes = [(0x0000, 0xB000, 0xA700)[pick(o, 0, 2)] for o in (o0, o1, o2)][:total]
     dest = Dest(codes)
     remote = {'aet': 'DEST', 'address': 'd', 'port': 104}
     ae = MoveAE((remote if (total > 0 or known) else None, total, iter([inst(i) for i in range(total)])), dest)
-    asce = RecAssoc(ae)
+    asce = RecAssoc(ae, lazy=lazy)
     rq = dm.CMoveRQMessage()
     rq.message_id = mid
     rq.sop_class_uid = MOVE_SOP
@@ -198,7 +203,7 @@ def move_provider(total: int, o0: int, o1: int, o2: int, mid: int, h: int, known
         fin = sent[-1]
         ok = ok and fin.status != 0xFF00 and fin.one_context() == cid and fin.responded_to == mid \
             and fin.command_field == 0x8021 and fin.us(0x1020) in (0, None)
-    deep(ok and total == 3 and o1 == 2)
+    deep(ok and (total < 2 or o1 == 2) and lazy)
     return ok
 
 
